@@ -152,23 +152,22 @@ impl MarkdownWriter {
         for inline in inlines {
             match inline {
                 GraphInline::Code(_, code) => {
-                    events.push(Event::Start(Tag::CodeBlock(
-                        pulldown_cmark::CodeBlockKind::Fenced(code.into()),
-                    )));
-                    events.push(Event::End(TagEnd::CodeBlock));
+                    // a code span, not a fenced block (which would break the table row)
+                    events.push(Event::Code(code.into()));
                 }
                 GraphInline::Emph(vec) => {
                     events.push(Event::Start(Tag::Emphasis));
                     events.extend(self.inlines_to_events(vec));
                     events.push(Event::End(TagEnd::Emphasis));
                 }
-                GraphInline::Image(url, title, _) => {
+                GraphInline::Image(url, title, inlines) => {
                     events.push(Event::Start(Tag::Image {
                         title: title.into(),
-                        link_type: pulldown_cmark::LinkType::Autolink,
+                        link_type: pulldown_cmark::LinkType::Inline,
                         dest_url: url.into(),
                         id: "".into(),
                     }));
+                    events.extend(self.inlines_to_events(inlines));
                     events.push(Event::End(TagEnd::Image));
                 }
                 GraphInline::LineBreak => {
